@@ -18,6 +18,7 @@ namespace GojaModel.C10
 
 inductive VExpr
   | u | n (k : Nat) | p (k : Nat) | t (id : Nat) | arg
+  | b (tid : Nat)      -- a fresh native (fulfilled) promise whose own `then` is overridden by thenable descriptor tid
   deriving Inhabited, Repr
 
 inductive CombKind | all | allSettled | race | any
@@ -33,7 +34,7 @@ inductive Act
   | fin (k : Nat) (f : Option Nat) (d : Nat)
   | pres (v : VExpr) (d : Nat)                  -- P[d] = Promise.resolve(v)
   | prej (v : VExpr) (d : Nat)
-  | comb (kind : CombKind) (d : Nat) (vs : List VExpr)
+  | comb (kind : CombKind) (ctor : Option Nat) (d : Nat) (vs : List VExpr)   -- Promise.all.call(C[ctor] ?? Promise, [vs])
   | call (a d : Nat)                            -- P[d] = A[a]()
   | interrupt                                   -- INT(): Runtime.Interrupt from a Go callback
   | await (v : VExpr) (isTry : Bool)            -- async bodies only
@@ -53,6 +54,14 @@ structure TDesc where
   body : Body := {}
   deriving Inhabited
 
+/-- A user-defined constructor for the combinators: `plain` = ordinary function returning a plain object (its
+resolve/reject functions only log), otherwise `class extends Promise`; static `resolve(v)` logs and returns a fresh
+thenable of descriptor `tid`. -/
+structure CDesc where
+  plain : Bool := false
+  tid : Nat := 0
+  deriving Inhabited
+
 inductive GoOp
   | gnew (k g : Nat) | gres (g : Nat) (v : VExpr) | grej (g : Nat) (v : VExpr)
   deriving Inhabited, Repr
@@ -64,6 +73,7 @@ structure Prog where
   funs : List (Nat × Body) := []
   thens : List (Nat × TDesc) := []
   asyncs : List (Nat × Body) := []
+  ctors : List (Nat × CDesc) := []
   segs : List Seg := []
   deriving Inhabited
 
@@ -90,7 +100,8 @@ structure ARun where
 structure St where
   rk : RK := RK.init
   slots : List (Option Nat) := []
-  rslots : List (Option (Fn × Fn)) := []
+  rslots : List (Option (Option Fn × Option Fn)) := []
+  bad : List (Nat × Nat) := []       -- native promises with an overridden own `then`: promise id ↦ thenable descriptor
   gslots : List (Option (Fn × Fn)) := []
   combs : List Comb := []
   asyncs : List ARun := []
@@ -145,16 +156,6 @@ end
 
 def reprM (v : Val) : M String := do return reprVal (← get).slots v
 
-def evalV (e : VExpr) (arg : Val) : M Val := do
-  match e with
-  | .u => return .undef
-  | .n k => return .num k
-  | .p k => match (← get).slots.getD k none with
-    | some q => return .prom q
-    | none => return .undef
-  | .t id => return .thenable id
-  | .arg => return arg
-
 def argVal : List Arg → Nat → Val
   | [], _ => .undef
   | .v x :: _, 0 => x
@@ -167,18 +168,62 @@ def argFn : List Arg → Nat → Option Fn
   | .v _ :: _, 0 => none         -- assertCallable fails
   | _ :: rest, n + 1 => argFn rest n
 
-/-- `obj.self.getStr("then")` + assertCallable on the resolution (builtin_promise.go:96-104).
-Thenable descriptors have a logging getter. -/
-def thenLookM (prog : Prog) (v : Val) (arg : Val) : M ThenLook := do
+def doReject (l : Nat) (v : Val) : M Unit := op (.callReject l v)
+
+/-- newPromiseCapability(%Promise%) (builtin_promise.go:281-286). -/
+def newCapM : M Cap := do
+  let k ← kget
+  let p := k.proms.length
+  let l := k.latches.length
+  op .newCap
+  return { promise := p, res := .resolve l, rej := .reject l }
+
+def evalV (e : VExpr) (arg : Val) : M Val := do
+  match e with
+  | .u => return .undef
+  | .n k => return .num k
+  | .p k => match (← get).slots.getD k none with
+    | some q => return .prom q
+    | none => return .undef
+  | .t id => return .thenable id
+  | .arg => return arg
+  | .b tid =>
+    -- `var q = Promise.resolve(undefined); Object.defineProperty(q, "then", …)`
+    let cap ← newCapM
+    match cap.res with
+    | .resolve l => op (.callResolve l .undef .notCallable)
+    | _ => pure ()
+    modify fun st => { st with bad := (cap.promise, tid) :: st.bad }
+    return .prom cap.promise
+
+def evalVs (es : List VExpr) (arg : Val) : M (List Val) := do
+  match es with
+  | [] => return []
+  | e :: rest =>
+    let v ← evalV e arg
+    let vs ← evalVs rest arg
+    return v :: vs
+
+def badTid (st : St) (q : Nat) : Option Nat := lookupId st.bad q
+
+/-- The user-defined `then` accessor of a thenable / of a promise with an overridden own `then`: logs, then throws or
+yields the descriptor's function. -/
+def userThenLook (prog : Prog) (tid : Nat) : M ThenLook := do
+  emit ("g" ++ toString tid)
+  match lookupId prog.thens tid with
+  | none => return .notCallable
+  | some d => match d.getterThrows with
+    | some e => return .throws (← evalV e .undef)
+    | none => return .callable (.thenableThen tid)
+
+/-- `obj.self.getStr("then")` + assertCallable on the resolution (builtin_promise.go:96-104). -/
+def thenLookM (prog : Prog) (v : Val) : M ThenLook := do
   match v with
-  | .prom _ => return .callable .promThen
-  | .thenable tid =>
-    emit ("g" ++ toString tid)
-    match lookupId prog.thens tid with
-    | none => return .notCallable
-    | some d => match d.getterThrows with
-      | some e => return .throws (← evalV e arg)
-      | none => return .callable (.thenableThen tid)
+  | .prom q =>
+    match badTid (← get) q with
+    | some tid => userThenLook prog tid
+    | none => return .callable .promThen
+  | .thenable tid => userThenLook prog tid
   | _ => return .notCallable
 
 /-- Calling a resolve function (builtin_promise.go:87-111): latch check, self check, then-lookup. -/
@@ -190,29 +235,21 @@ def doResolve (prog : Prog) (l : Nat) (v : Val) : M Unit := do
     if already then return ()
     if isSelf v p then op (.callResolve l v .notCallable)
     else
-      let look ← thenLookM prog v .undef
+      let look ← thenLookM prog v
       op (.callResolve l v look)
 
-def doReject (l : Nat) (v : Val) : M Unit := op (.callReject l v)
-
-/-- promiseCapability.resolve / .reject (builtin_promise.go:385-391); all capabilities here are %Promise%'s. -/
-def capResolve (prog : Prog) (cap : Cap) (v : Val) : M Unit :=
+/-- promiseCapability.resolve / .reject (builtin_promise.go:385-391): the capability's own functions. -/
+def capResolve (prog : Prog) (cap : Cap) (v : Val) : M Unit := do
   match cap.res with
   | .resolve l => doResolve prog l v
+  | .logRes c => emit ("R" ++ toString c ++ ":" ++ (← reprM v))
   | _ => pure ()
 
-def capReject (cap : Cap) (v : Val) : M Unit :=
+def capReject (cap : Cap) (v : Val) : M Unit := do
   match cap.rej with
   | .reject l => doReject l v
+  | .logRej c => emit ("J" ++ toString c ++ ":" ++ (← reprM v))
   | _ => pure ()
-
-/-- newPromiseCapability(%Promise%) (builtin_promise.go:281-286). -/
-def newCapM : M Cap := do
-  let k ← kget
-  let p := k.proms.length
-  let l := k.latches.length
-  op .newCap
-  return { promise := p, res := .resolve l, rej := .reject l }
 
 /-- promiseProto_then + performPromiseThen (builtin_promise.go:271-336) on native promise `p`. -/
 def performThen (p : Nat) (onF onR : Option Fn) : M Nat := do
@@ -220,7 +257,7 @@ def performThen (p : Nat) (onF onR : Option Fn) : M Nat := do
   op (.addReactions p (some cap) onF onR)
   return cap.promise
 
-/-- r.invoke(v, "then", args…) where v is a native promise. -/
+/-- Promise.prototype.then itself, called on v. -/
 def invokeThen (v : Val) (args : List Arg) : M Res := do
   match v with
   | .prom p => return .normal (.prom (← performThen p (argFn args 0) (argFn args 1)))
@@ -272,13 +309,13 @@ def callFn (prog : Prog) : Nat → Fn → Val → List Arg → M Res
     | .resolve l => doResolve prog l (argVal args 0); return .normal .undef
     | .reject l => doReject l (argVal args 0); return .normal .undef
     | .promThen => invokeThen this args
+    | .logRes c => emit ("R" ++ toString c ++ ":" ++ (← reprM (argVal args 0))); return .normal .undef
+    | .logRej c => emit ("J" ++ toString c ++ ":" ++ (← reprM (argVal args 0))); return .normal .undef
     | .thenableThen tid =>
       match lookupId prog.thens tid with
       | none => return .normal .undef
       | some d =>
-        match argFn args 0, argFn args 1 with
-        | some x, some y => modify fun st => { st with rslots := setExt st.rslots d.slot (some (x, y)) none }
-        | _, _ => pure ()
+        modify fun st => { st with rslots := setExt st.rslots d.slot (some (argFn args 0, argFn args 1)) none }
         emit ("t" ++ toString tid)
         execBody prog n d.body .undef
     | .thenFinally f =>                               -- builtin_promise.go:362-370
@@ -286,14 +323,14 @@ def callFn (prog : Prog) : Nat → Fn → Val → List Arg → M Res
       match ← callFn prog n (.user f) .undef [] with
       | .normal result =>
         let q ← promiseResolveM prog result
-        invokeThen (.prom q) [.f (.valueThunk value)]
+        invokeThenR prog n (.prom q) [.f (.valueThunk value)]
       | other => return other
     | .catchFinally f =>                              -- builtin_promise.go:372-380
       let reason := argVal args 0
       match ← callFn prog n (.user f) .undef [] with
       | .normal result =>
         let q ← promiseResolveM prog result
-        invokeThen (.prom q) [.f (.thrower reason)]
+        invokeThenR prog n (.prom q) [.f (.thrower reason)]
       | other => return other
     | .valueThunk v => return .normal v
     | .thrower v => return .throw v
@@ -320,6 +357,62 @@ def callFn (prog : Prog) : Nat → Fn → Val → List Arg → M Res
       else
         capReject r.cap e                             -- func.go:716
         return .normal .undef
+
+/-- `r.invoke(v, "then", args…)` / JavaScript `v.then(args…)`: look `then` up on v (own overridden accessor of a
+"bad" promise or of a thenable: user code), then call it. -/
+def invokeThenR (prog : Prog) : Nat → Val → List Arg → M Res
+  | 0, _, _ => do outOfFuel; return .abort
+  | n + 1, v, args => do
+    let user (tid : Nat) : M Res := do
+      match ← userThenLook prog tid with
+      | .throws e => return .throw e
+      | .callable f => callFn prog n f v args
+      | .notCallable => return .throw .typeErr
+    match v with
+    | .prom p =>
+      match badTid (← get) p with
+      | some tid => user tid
+      | none => invokeThen v args
+    | .thenable tid => user tid
+    | _ => return .throw .typeErr
+
+/-- A `P[d] = P[k].then(f, g)`-like statement of the op language:
+`try { var r = P[k].then(f, g); if (r instanceof Promise) P[d] = r } catch (e) { E.push("e:" + repr(e)) }`.
+Returns true on abort. -/
+def jsThen (prog : Prog) : Nat → Nat → Nat → Option Fn → Option Fn → M Bool
+  | 0, _, _, _, _ => do outOfFuel; return true
+  | n + 1, p, d, onF, onR => do
+    match ← invokeThenR prog n (.prom p) [fopt onF, fopt onR] with
+    | .abort => return true
+    | .throw e => emit ("e:" ++ (← reprM e)); return false
+    | .normal (.prom q) => setSlot d q; return false
+    | .normal _ => return false
+
+/-- The body of iter.iterate in promise_all / allSettled / any / race (builtin_promise.go:411-430 etc.) over the
+already evaluated input values.  `none` = loop completed; `some r` = abrupt completion r (throw / abort). -/
+def combLoop (prog : Prog) : Nat → CombKind → Nat → Cap → Option (Nat × CDesc) → List Val → Nat → M (Option Res)
+  | 0, _, _, _, _, _, _ => do outOfFuel; return some .abort
+  | _ + 1, _, _, _, _, [], _ => return none
+  | n + 1, kind, c, pcap, ctor, val :: rest, idx => do
+    -- nextPromise := promiseResolve(c, nextValue): %Promise%'s own resolve or the user-defined static
+    let next : Val ← match ctor with
+      | none => pure (Val.prom (← promiseResolveM prog val))
+      | some (cid, cd) =>
+        emit ("cr" ++ toString cid ++ ":" ++ (← reprM val))
+        pure (Val.thenable cd.tid)
+    let r ← match kind with
+      | .race => invokeThenR prog n next [.f pcap.res, .f pcap.rej]
+      | _ =>
+        modify fun st =>
+          let cb := st.combs.getD c default
+          { st with combs := st.combs.set c { cb with crec := cb.crec.addElem } }
+        match kind with
+        | .all => invokeThenR prog n next [.f (.allElem c idx idx), .f pcap.rej]
+        | .allSettled => invokeThenR prog n next [.f (.settledElem c idx idx false), .f (.settledElem c idx idx true)]
+        | _ => invokeThenR prog n next [.f pcap.res, .f (.anyElem c idx idx)]
+    match r with
+    | .normal _ => combLoop prog n kind c pcap ctor rest (idx + 1)
+    | other => return some other
 
 /-- Run a function body: actions, then completion. -/
 def execBody (prog : Prog) : Nat → Body → Val → M Res
@@ -363,7 +456,7 @@ def execActs (prog : Prog) : Nat → List Act → Val → M ActsOut
     | .log k => emit ("l" ++ toString k); cont
     | .new k s f =>                                   -- builtin_newPromise, builtin_promise.go:246-269
       let cap ← newCapM
-      modify fun st => { st with rslots := setExt st.rslots s (some (cap.res, cap.rej)) none }
+      modify fun st => { st with rslots := setExt st.rslots s (some (some cap.res, some cap.rej)) none }
       emit ("x" ++ toString k)
       let r ← match f with
         | none => pure (Res.normal .undef)
@@ -372,37 +465,40 @@ def execActs (prog : Prog) : Nat → List Act → Val → M ActsOut
       | .abort => return .abort
       | .throw e => capReject cap e; setSlot k cap.promise; cont     -- :263-267
       | .normal _ => setSlot k cap.promise; cont
-    | .res s v =>
+    | .res s v =>      -- try { if (typeof RS[s][0] === "function") RS[s][0](v) } catch (e) { E.push("e:"+repr(e)) }
       match (← get).rslots.getD s none with
-      | none => cont
-      | some (x, _) =>
+      | some (some x, _) =>
         let val ← evalV v a
         match ← callFn prog n x .undef [.v val] with
         | .abort => return .abort
-        | _ => cont
+        | .throw e => emit ("e:" ++ (← reprM e)); cont
+        | .normal _ => cont
+      | _ => cont
     | .rej s v =>
       match (← get).rslots.getD s none with
-      | none => cont
-      | some (_, y) =>
+      | some (_, some y) =>
         let val ← evalV v a
         match ← callFn prog n y .undef [.v val] with
         | .abort => return .abort
-        | _ => cont
+        | .throw e => emit ("e:" ++ (← reprM e)); cont
+        | .normal _ => cont
+      | _ => cont
     | .then_ k f g d =>
       match (← get).slots.getD k none with
       | none => cont
-      | some p => setSlot d (← performThen p (hfn f) (hfn g)); cont
-    | .catch_ k g d =>                                -- promiseProto_catch: then(undefined, g)
+      | some p => if ← jsThen prog n p d (hfn f) (hfn g) then return .abort else cont
+    | .catch_ k g d =>                                -- promiseProto_catch: this.then(undefined, g)
       match (← get).slots.getD k none with
       | none => cont
-      | some p => setSlot d (← performThen p none (hfn g)); cont
+      | some p => if ← jsThen prog n p d none (hfn g) then return .abort else cont
     | .fin k f d =>                                   -- promiseProto_finally, builtin_promise.go:354-383
       match (← get).slots.getD k none with
       | none => cont
       | some p =>
         match f with
-        | none => setSlot d (← performThen p none none); cont
-        | some f => setSlot d (← performThen p (some (.thenFinally f)) (some (.catchFinally f))); cont
+        | none => if ← jsThen prog n p d none none then return .abort else cont
+        | some f =>
+          if ← jsThen prog n p d (some (.thenFinally f)) (some (.catchFinally f)) then return .abort else cont
     | .pres v d =>                                    -- promise_resolve :546
       let val ← evalV v a
       setSlot d (← promiseResolveM prog val); cont
@@ -411,40 +507,38 @@ def execActs (prog : Prog) : Nat → List Act → Val → M ActsOut
       let cap ← newCapM
       capReject cap val
       setSlot d cap.promise; cont
-    | .comb kind d vs =>                              -- promise_all/allSettled/any/race :402-538
-      let pcap ← newCapM
+    | .comb kind ctor d vs =>                         -- promise_all/allSettled/any/race :402-538
+      let vals ← evalVs vs a                          -- the array literal is evaluated first
+      let cinfo : Option (Nat × CDesc) := match ctor with
+        | none => none
+        | some cid => (lookupId prog.ctors cid).map (fun cd => (cid, cd))
+      -- newPromiseCapability(c)
+      let plain := match cinfo with
+        | some (_, cd) => cd.plain
+        | none => false
+      let pcap ← match cinfo with
+        | some (cid, cd) =>
+          if cd.plain then do
+            emit ("C" ++ toString cid)
+            pure ({ promise := 0, res := .logRes cid, rej := .logRej cid } : Cap)
+          else newCapM
+        | none => newCapM
       let c := (← get).combs.length
       modify fun st => { st with combs := st.combs ++ [{ cap := pcap }] }
-      let rec loop : List VExpr → Nat → M Unit
-        | [], _ => pure ()
-        | e :: es, idx => do
-          let val ← evalV e a
-          let next ← promiseResolveM prog val
-          match kind with
-          | .race =>
-            let _ ← performThen next (some pcap.res) (some pcap.rej)
-          | _ =>
-            modify fun st =>
-              let cb := st.combs.getD c default
-              { st with combs := st.combs.set c { cb with crec := cb.crec.addElem } }
-            match kind with
-            | .all =>
-              let _ ← performThen next (some (.allElem c idx idx)) (some pcap.rej)
-            | .allSettled =>
-              let _ ← performThen next (some (.settledElem c idx idx false)) (some (.settledElem c idx idx true))
-            | _ =>
-              let _ ← performThen next (some pcap.res) (some (.anyElem c idx idx))
-          loop es (idx + 1)
-      loop vs 0
-      if kind != .race then
-        let st ← get
-        let cb := st.combs.getD c default
-        let (r', fired) := cb.crec.finish
-        set { st with combs := st.combs.set c { cb with crec := r' } }
-        if fired then
-          if kind == .any then capReject pcap (.aggErr r'.val.values)
-          else capResolve prog pcap (.arr r'.val.values)
-      setSlot d pcap.promise; cont
+      match ← combLoop prog n kind c pcap cinfo vals 0 with       -- inside pcap.try
+      | some .abort => return .abort
+      | some (.throw e) => capReject pcap e                       -- builtin_promise.go:393-399
+      | _ =>
+        if kind != .race then
+          let st ← get
+          let cb := st.combs.getD c default
+          let (r', fired) := cb.crec.finish
+          set { st with combs := st.combs.set c { cb with crec := r' } }
+          if fired then
+            if kind == .any then capReject pcap (.aggErr r'.val.values)
+            else capResolve prog pcap (.arr r'.val.values)
+      if !plain then setSlot d pcap.promise
+      cont
     | .call aid d =>                                  -- asyncRunner.start, func.go:734
       match lookupId prog.asyncs aid with
       | none => cont
